@@ -579,10 +579,21 @@ func genExhaustive(g *Gen, tier string, emit func(Case), mode string) {
 		pf = profiles["scn-mixed"]
 		pf.pFault, pf.pCrash, pf.pPretend = 0, 0, 0
 	}
-	for i := 0; i < n; i++ {
+	for i := 0; i < n+1; i++ {
 		base := genScenario(g, pf)
 		if i%6 == 0 {
 			base = fanoutScenario(g)
+		}
+		maxCands, maxK := 4, 14
+		if i == n {
+			// the fixed tour (init, mount with two export links per layer, verbose umount -all,
+			// rename, remove, add): every step, every position — so that what the random
+			// scenarios reach only at some seeds is always covered
+			if mode != "fault" {
+				continue
+			}
+			base = faultTourScenario(g)
+			maxCands, maxK = 99, 30
 		}
 		if i%6 == 3 && mode == "crash" {
 			base = rewriteScenario(g)
@@ -602,13 +613,13 @@ func genExhaustive(g *Gen, tier string, emit func(Case), mode string) {
 			}
 		}
 		sort.Slice(cands, func(a, b int) bool { return cands[a].n > cands[b].n })
-		if len(cands) > 4 {
-			cands = cands[:4]
+		if len(cands) > maxCands {
+			cands = cands[:maxCands]
 		}
 		for _, cd := range cands {
 			best, bestN := cd.idx, cd.n
-			if bestN > 14 {
-				bestN = 14
+			if bestN > maxK {
+				bestN = maxK
 			}
 			for k := 1; k <= bestN+1; k++ {
 				c := Case{"op": "scenario", "cfg": base["cfg"], "tree": base["tree"], "host": base["host"]}
@@ -643,6 +654,31 @@ func genExhaustive(g *Gen, tier string, emit func(Case), mode string) {
 			}
 		}
 	}
+}
+
+// faultTourScenario: one installation visited by every kind of command; both layers have a
+// packages and a generated directory (two automatic export links each)
+func faultTourScenario(g *Gen) Case {
+	t := &treeB{ents: map[string][]interface{}{}}
+	for _, h := range []string{"/", "/dev", "/proc", "/sys", "/run"} {
+		t.ents[h] = []interface{}{hx(h), "d"}
+	}
+	t.dir(VB)
+	t.dir(VB + "/hostsrc/sub")
+	imports := []string{"import proc /proc /proc", "import rbind /dev /dev", "import rbind $$base/packages /var/cache/binpkgs"}
+	for _, l := range []glayer{{name: "b0", imports: imports}, {name: "d0", base: "b0", imports: imports}} {
+		genLayerTree(g, t, l, scnProfile{}, false)
+		t.dir(VB + "/layers/" + l.name + "/packages")
+		t.dir(VB + "/layers/" + l.name + "/generated")
+	}
+	cmd := func(name string, args ...string) map[string]interface{} {
+		return obj("cmd", name, "args", hxs(args))
+	}
+	all := obj("cmd", "umount", "args", hxs([]string{""}), "all", true, "verbose", true)
+	steps := []interface{}{cmd("init"), cmd("mount", "d0"), all, cmd("rename", "d0", "d9"), cmd("add", "n1", "b0", ""),
+		cmd("rebase", "d9", "n1"), cmd("remove", "d9"), cmd("mkdirs", "n1"), cmd("chroot", "n1"),
+		obj("cmd", "umount", "args", hxs([]string{""}), "all", true)}
+	return Case{"op": "scenario", "cfg": defaultCfg(), "tree": t.list(), "host": hostTable(g, false), "steps": steps}
 }
 
 // a parent with three children (long base names, so that rewrites differ in length): rename
